@@ -216,7 +216,7 @@ Proof. apply N.neq_0_lt_0, N.pow_nonzero. discriminate. Qed.
 Lemma parse_unary_good st toks u e n :
   inv st -> parse_unary true st toks u = POk (e, n) -> good (decl st) e.
 Proof.
-  intros Hinv H. unfold parse_unary in H.
+  intros Hinv H. unfold parse_unary, lower_unary in H.
   binv H u0 Hr. binv H tpe Htpe. binv H e0 He0. binv H rc Hrc. destruct rc as [r count].
   binv H c Hc. apply check_expr_type_ok in Hc. destruct Hc as (-> & Hck & Hty). inversion H; subst e n; clear H.
   pose proof (get_expr_good _ _ _ Hinv He0) as Hg0.
@@ -279,7 +279,7 @@ Proof. intros Ha Hb c0 [<-|[<-|[]]]; auto. Qed.
 Lemma parse_binary_good st toks bo e n :
   inv st -> binop_ok bo -> parse_binary true st toks bo = POk (e, n) -> good (decl st) e.
 Proof.
-  intros Hinv Hbo H. unfold parse_binary in H.
+  intros Hinv Hbo H. unfold parse_binary, lower_binary in H.
   binv H u0 Hr. binv H tpe Htpe. binv H a Ha. binv H b Hb. binv H r Hrc.
   binv H c Hc. apply check_expr_type_ok in Hc. destruct Hc as (-> & Hck & Hty). inversion H; subst e n; clear H.
   pose proof (get_expr_good _ _ _ Hinv Ha) as Hga. pose proof (get_expr_good _ _ _ Hinv Hb) as Hgb.
@@ -334,7 +334,7 @@ Proof. intros Ha Hb Hc c0 [<-|[<-|[<-|[]]]]; auto. Qed.
 Lemma parse_ternary_good st toks is_ite e n :
   inv st -> parse_ternary true st toks is_ite = POk (e, n) -> good (decl st) e.
 Proof.
-  intros Hinv H. unfold parse_ternary in H.
+  intros Hinv H. unfold parse_ternary, lower_ternary in H.
   binv H u0 Hr. binv H tpe Htpe. binv H a Ha. binv H b Hb. binv H c Hc. binv H r Hrc.
   binv H k Hk. apply check_expr_type_ok in Hk. destruct Hk as (-> & Hck & Hty). inversion H; subst e n; clear H.
   pose proof (get_expr_good _ _ _ Hinv Ha) as Hga. pose proof (get_expr_good _ _ _ Hinv Hb) as Hgb.
